@@ -247,8 +247,9 @@ fn gen_system(rng: &mut Rng, d: usize, nrows: usize) -> (Vec<Vec<f64>>, Vec<f64>
             rows.push(rows[j].iter().map(|v| -v).collect());
             bias.push(-bias[j] + *rng.pick(&[0.0, 0.0, 1.0, -1.0]));
         } else if kind == 4 {
-            rows.push(vec![0.0; d]);
-            bias.push(*rng.pick(&[-1.0, 0.0, 1.0]));
+            // zero row; IEEE negative zeros occur naturally when a >= system is negated
+            rows.push(vec![*rng.pick(&[0.0, -0.0]); d]);
+            bias.push(*rng.pick(&[-1.0, 0.0, -0.0, 1.0]));
         } else {
             let (r, b) = pred_row(rng, d);
             rows.push(r);
